@@ -50,6 +50,7 @@ type c01leaf struct {
 	Raw      bool      // innerxml field
 	NoInject bool      // documented contract "raw XML supplied by the caller"
 	Subst    bool      // carries a substituted (adversarial) string in this build
+	Numeric  bool      // integer-typed: eligible for the boundary values of its type
 	Steps    []c01step // how to reach the field in a parsed value
 }
 
@@ -77,6 +78,35 @@ type c01cfg struct {
 	slot    map[string][]reflect.Type // forced content of interface slots, by path
 	choices map[string]int            // variant chosen per interface slot path
 	subst   map[string]string         // leaf path -> string placed instead of the marker
+	numIdx  int                       // 0 = small distinct numbers; k > 0 = the k-th boundary value of each numeric leaf's type
+}
+
+// boundary values of the integer types (those that do not fit a leaf's type are left out for it)
+var c01intBounds = []int64{0, 1, -1, 127, -128, 128, 255, 32767, -32768, 65535, 1<<31 - 1, -(1 << 31), 1 << 31, 1<<32 - 1, 1 << 32, 1<<63 - 1, -(1 << 63)}
+var c01uintBounds = []uint64{0, 1, 127, 128, 255, 256, 65535, 65536, 1<<31 - 1, 1 << 31, 1<<32 - 1, 1 << 32, 1<<53 + 1, 1<<63 - 1, 1 << 63, 1<<64 - 1}
+
+func c01intBound(v reflect.Value, idx int) (int64, bool) {
+	k := 0
+	for _, b := range c01intBounds {
+		if !v.OverflowInt(b) {
+			if k++; k == idx {
+				return b, true
+			}
+		}
+	}
+	return 0, false
+}
+
+func c01uintBound(v reflect.Value, idx int) (uint64, bool) {
+	k := 0
+	for _, b := range c01uintBounds {
+		if !v.OverflowUint(b) {
+			if k++; k == idx {
+				return b, true
+			}
+		}
+	}
+	return 0, false
 }
 
 type c01gen struct {
@@ -332,9 +362,12 @@ func (g *c01gen) fill(v reflect.Value, cx c01ctx) {
 			return
 		}
 		g.nInt++
-		n := 10 + g.nInt
+		n, uniq := 10+g.nInt, true
+		if b, ok := c01intBound(reflect.ValueOf(int(0)), g.cfg.numIdx); ok {
+			n, uniq = int(b), false
+		}
 		v.Set(reflect.ValueOf(NewNullableInt(n)))
-		g.add(&c01leaf{Path: cx.path, Key: cx.key, Chain: cx.chain, ChainP: cx.chainP, Steps: cx.steps, Kind: g.leafKind(cx), Text: fmt.Sprint(n), Unique: true, Expect: exp, Explicit: explicit})
+		g.add(&c01leaf{Path: cx.path, Key: cx.key, Chain: cx.chain, ChainP: cx.chainP, Steps: cx.steps, Kind: g.leafKind(cx), Text: fmt.Sprint(n), Unique: uniq, Expect: exp, Explicit: explicit, Numeric: true})
 		return
 	case c01tTime:
 		if !g.wantLeaf(cx.path) {
@@ -371,17 +404,23 @@ func (g *c01gen) fill(v reflect.Value, cx c01ctx) {
 			return
 		}
 		g.nInt++
-		n := 10 + g.nInt
-		v.SetInt(int64(n))
-		g.add(&c01leaf{Path: cx.path, Key: cx.key, Chain: cx.chain, ChainP: cx.chainP, Steps: cx.steps, Kind: g.leafKind(cx), Text: fmt.Sprint(n), Unique: true, Expect: exp, Explicit: explicit})
+		n, uniq := int64(10+g.nInt), true
+		if b, ok := c01intBound(v, g.cfg.numIdx); ok {
+			n, uniq = b, false
+		}
+		v.SetInt(n)
+		g.add(&c01leaf{Path: cx.path, Key: cx.key, Chain: cx.chain, ChainP: cx.chainP, Steps: cx.steps, Kind: g.leafKind(cx), Text: fmt.Sprint(n), Unique: uniq, Expect: exp, Explicit: explicit, Numeric: true})
 	case reflect.Uint, reflect.Uint8, reflect.Uint16, reflect.Uint32, reflect.Uint64:
 		if !g.wantLeaf(cx.path) {
 			return
 		}
 		g.nInt++
-		n := 10 + g.nInt
-		v.SetUint(uint64(n))
-		g.add(&c01leaf{Path: cx.path, Key: cx.key, Chain: cx.chain, ChainP: cx.chainP, Steps: cx.steps, Kind: g.leafKind(cx), Text: fmt.Sprint(n), Unique: true, Expect: exp, Explicit: explicit})
+		n, uniq := uint64(10+g.nInt), true
+		if b, ok := c01uintBound(v, g.cfg.numIdx); ok {
+			n, uniq = b, false
+		}
+		v.SetUint(n)
+		g.add(&c01leaf{Path: cx.path, Key: cx.key, Chain: cx.chain, ChainP: cx.chainP, Steps: cx.steps, Kind: g.leafKind(cx), Text: fmt.Sprint(n), Unique: uniq, Expect: exp, Explicit: explicit, Numeric: true})
 	case reflect.Bool:
 		if !g.wantLeaf(cx.path) {
 			return
